@@ -357,12 +357,25 @@ def run_case(case, rec, mon=None):
             if not torch.allclose(a - x, z, rtol=0, atol=1e-9 * (10 + coeff)):
                 mon.v("PyTorchDither noise depends on the input", check="dither_independence", op="dither")
         N = 200000 if case["n"] < 100 else 1000000
-        for coeff in (1.0, 0.05, 20.0):
+        for coeff, mode in ((1.0, "train"), (0.05, "eval"), (20.0, "scripted-eval"), (3.0, "eval-in-sequential")):
             torch.manual_seed(int(rng.integers(0, 2 ** 31 - 1)))
-            nz = (T.PyTorchDither(coeff)(torch.zeros(N, dtype=torch.float64))).numpy()
+            dmod = T.PyTorchDither(coeff)
+            # dithering is a pre-processing step, not a regulariser: it applies in every module mode
+            if mode == "eval":
+                dmod = dmod.eval()
+            elif mode == "scripted-eval":
+                mon.active = False
+                try:
+                    dmod = torch.jit.script(dmod).eval()
+                finally:
+                    mon.active = True
+            elif mode == "eval-in-sequential":
+                dmod = torch.nn.Sequential(dmod).eval()
+            rec.count("dither_mode_" + mode)
+            nz = dmod(torch.zeros(N, dtype=torch.float64)).numpy()
             rec.count("dither_moment_checks")
             if not (abs(nz.mean()) <= 6 * coeff / np.sqrt(N) and abs(nz.std() - coeff) <= 6 * coeff / np.sqrt(2 * N)):
-                mon.v("PyTorchDither(%r) noise mean %g std %g over %d samples" % (coeff, nz.mean(), nz.std(), N), check="dither_moments", op="dither")
+                mon.v("PyTorchDither(%r) [%s] noise mean %g std %g over %d samples" % (coeff, mode, nz.mean(), nz.std(), N), check="dither_moments", op="dither")
     if own:
         monitor.report(rec)
         mon.detach()
